@@ -39,6 +39,16 @@ CHECKS = {
    text="repair_value/_attempt_enum_casefold/_attempt_type_coercion run under CrossHair for each of six chain shapes on symbolic values (str <= 2 chars, any int, bool, None, literal zone, list), symbolic fix flag and ENUM lists whose unique/ambiguous/no-match cases are all reachable; numeric texts come from a 30-entry solver-indexed pool covering every notation named in the property (sign, leading zeros, underscores, padding, exponent, overflow to inf, nan/inf spellings, hex, non-ASCII digits). repair()/_repair_ast_node run on documents with keys chosen by symbolic index at four nesting depths: skeleton, META and unnamed values unchanged, one REPAIR-tier log entry per change with exact before/after, new value satisfies the motivating constraint, second repair is a no-op. ValidateTool copies each log entry once and calls repair only with fix. All path trees exhausted, reachability twins witnessed.",
    note="int()/float()/str.lower() of symbolic strings do not exhaust under CrossHair: numeric texts are pool-indexed and ENUM lists partly concrete (stated bounds). octave_write(lenient) and CLI --fix call the same repair().",
    ref="DESIGN.md §4 C11"),
+ "C12": dict(
+   technique="CrossHair symbolic execution of the real GBNF compiler pieces, judged by a reference GBNF reader transcribed from llama.cpp",
+   text="A transcription of llama.cpp's grammar parser (vf/gbnf.py) is the well-formedness predicate (parses, root defined, every referenced rule defined, no rule twice, no empty alternative). CrossHair executes the real _escape_literal (all strings <= 3 chars: literal decodes to the value, never terminates early), _compile_enum/_compile_const (symbolic values), _sanitize_rule_name (all 1-char names) symbolically; compile_schema / compile_gbnf_from_meta run on schemas assembled by symbolic index from pools covering every sanitisation case (case/dot/slash/hyphen/underscore collisions, unicode, leading digit, structural names, quotes/backslashes), 35 chains, 6 schema names, name pairs and triples, all REGEX pattern texts <= 3 chars over a 15-char regex-significant alphabet, and CONTRACT lists read by the real parser. Listed finding rule-name-charset ('_' in rule names) is tolerated by the whole-grammar judge and re-confirmed by a witness; everything else is strict.",
+   note="Trusted: the reference reader's fidelity to llama.cpp; pool-indexed obligations execute concretely per solver choice (bounded pools, stated); integrations (llama_cpp/outlines/vllm wrappers) pass the same grammar string through.",
+   ref="DESIGN.md §4 C12"),
+ "C13": dict(
+   technique="z3 regular-language inclusion between compiled GBNF fragments and the lexer model; CrossHair on the CONST/ENUM compilation and chain evaluation",
+   text="The TYPE[NUMBER]/RANGE and TYPE[BOOLEAN] fragments are read from the live compiler, parsed by the reference GBNF reader, translated to regular languages and shown by z3 (all derivations, any length) to be tokenised by the lexer model as exactly one NUMBER / BOOLEAN token (no earlier pattern fires, own pattern matches the whole text). For CONST and ENUM, CrossHair shows on symbolic constants (str <= 2 chars of any character, ints, bool, null; alone or with REQ/OPT) that the literal is exactly the canonical emission of the constant and that the chain accepts the constant, so reading the generated text back (C04) validates. The DATE/ISO8601 clause and the rule's leading ws are listed findings, re-confirmed by witnesses on every run.",
+   note="Relies on C04 for 'canonical scalar text reads back as the scalar' and on C12's literal lemma; value text = derivation of the field's fragment; REGEX-decided fields are outside the property.",
+   ref="DESIGN.md §4 C13"),
 }
 NOT_APPLICABLE = {
  "C06": "quantifies over interpreter configurations (PYTHONHASHSEED, locale, cwd, process boundaries, task interleavings); symbolic execution runs inside one configuration and cannot make these symbolic (DESIGN.md §4 C06)",
